@@ -269,7 +269,7 @@ func execute(t *testing.T, w *Workload, tier string, seed uint64, o execOpts) (r
 			if w.Post != nil && !r.Failed() && res.Undecided == "" {
 				w.Post(r, reason)
 			}
-			if o.keepTape || r.viol != nil {
+			if o.keepTape || r.Failed() {
 				res.Tape = s.Tape()
 			}
 			res.TapeLen = len(s.Tape())
